@@ -21,4 +21,11 @@ CONFIG = {
         "quick": {"parts": [part("TestC09Core", 4, 20000), part("TestC09SQL", 8, 40)]},
         "thorough": {"parts": [part("TestC09Core", 16, 400000, timeout=3000), part("TestC09SQL", 16, 600, timeout=3000)]},
     },
+    "C05": {
+        "level": "exploration",
+        "rule": "(a) rapid-generated expression trees (SUM/MIN/MAX/COUNT/AVG/WAVG leaves with optional BOUNDED, PERCENTILE, + - * /, comparisons, AND/OR, IF over dimension predicates, SHIFT, LN/LOG2/LOG10, constants; depth <= 4) x multisets of 0-8 updates (params + metadata) x a split into up to 3 parts: Get(Merge(states)) must equal the denotational value over the union, both merge orders and both associations, Merge must not modify operands; (b) rapid-generated pairs/triples of stored series (until, length, per-period samples) x truncation bounds on the grid and half-grid for Sequence.Merge / Truncate / SubMerge (scale 1,2,3,5) against a map period->multiset model incl. operand-bytes-unchanged; (c) the same for Merge and Truncate exhaustively over a bounded window. Non-trivial: (a) tree depth >= 3 and >= 2 non-empty parts; (b) both series non-empty with an overlap or a gap (merge), >= 2 periods and a bound (truncate), scale > 1 (submerge). Distinct = distinct case hash / enumeration key.",
+        "assumptions": ["values are small integers or quarters so that re-association is exact; tolerance 1e-9", "periods at or before truncateBefore are not required to be retained by Merge"],
+        "quick": {"parts": [part("TestC05Expr", 4, 15000), part("TestC05Seq", 4, 15000), part("TestC05SeqExhaustive", 1, 1)]},
+        "thorough": {"parts": [part("TestC05Expr", 16, 300000, timeout=3000), part("TestC05Seq", 16, 300000, timeout=3000), part("TestC05SeqExhaustive", 1, 1)]},
+    },
 }
